@@ -641,6 +641,25 @@ def affine_siblings(chk, rule):
         forms[what] = sites[0][2]
         chk.ob(rule, "affine/%s=2x+1" % what, not bad, sites[0][0].loc(),
                "individuals -> axis length must be 2*x+1 (arithmetic feeding the shape: %s)" % [(g.loc(), ("%d*x+%d over %s" % r) if r else "not affine / unrecognised") for g, l, r in sites])
+    # one axis length per requested value: between the option's vector and the shape only length-preserving adaptors (a zip with the input's
+    # axes, a take, a filter would silently drop surplus or unwanted entries, and a target of the wrong dimensionality would be accepted)
+    LENGTH_PRESERVING = ("collect", "map", "into_iter", "iter", "copied", "cloned", "enumerate", "inspect", "by_ref", "iter_mut", "rev", "from_iter", "into", "from", "to_vec", "clone", "to_owned", "as_slice", "deref", "as_ref")
+    for path, what in SIBLINGS[1:]:
+        f = chk.fn(path)
+        if f is None:
+            continue
+        if path == VIEW_RUN:
+            pc = an.calls(f, "sfs_core::spectrum::Spectrum::<S>::project")
+            if len(pc) != 1:
+                continue
+            root = pc[0][1]["args"][1]
+        else:
+            root = {"k": "move", "place": {"l": 0, "p": []}}
+        sl, info = f.slice_locals(root)
+        ads = [callee_name(x[1]["callee"]).split("::")[-1] for x in info["calls"] if "iter" in callee_name(x[1]["callee"]).lower() and (x[1]["callee"].get("path") or "").startswith(("core::iter::", "<"))]
+        bad = [a for a in ads if a not in LENGTH_PRESERVING]
+        chk.ob(rule, "entries/%s/one-per-requested-value" % what, not bad, f.loc(),
+               "iterator adaptors between the option's values and the shape: %s (length-changing: %s)" % (ads, bad or "none"))
     return forms
 
 
@@ -1232,6 +1251,96 @@ def c02g(chk):
         # impossible cases return 0.0
         z = [rv for _, _, p_, rv, _ in hp.assigns() if p_[0] == 0 and rv["k"] == "use" and isinstance(const_val(rv["op"]), dict) and const_val(rv["op"]).get("f") == "0.0"]
         chk.ob("C02.g", "hypergeometric_pmf/zero-when-observed>draws", len(z) >= 1, hp.loc(), "the impossible case returns 0.0")
+        # ... and only there: with the edges of the three impossibility tests removed, no `return 0.0` is reachable through recognised comparisons
+        reach, why_z = zero_only_when_impossible(hp)
+        chk.ob("C02.g", "hypergeometric_pmf/zero-only-when-impossible", not reach, hp.loc(),
+               "0.0 is returned only under observed > draws, observed > successes or draws - observed > size - successes (Hypergeom(0; 0, 0, 0) = 1: a population "
+               "with no called chromosome projected to m = 0 still contributes): %s" % why_z)
+
+
+def int_lin_form(fn, op, depth=0):
+    """integer operand as a linear form over the function's parameters: ({param: coef}, const), else None"""
+    if depth > 24:
+        return None
+    if op["k"] == "const":
+        v = op.get("val")
+        return ({}, v) if isinstance(v, int) and not isinstance(v, bool) else None
+    pl = op_place(op)
+    if pl is None:
+        return None
+    l, proj = pl
+    if proj:
+        if len(proj) == 1 and proj[0][0] == "field" and proj[0][1] == 0:
+            dd = fn.single_def(l)
+            if dd and dd[0] == "assign" and dd[3]["k"] == "binop" and dd[3]["op"].endswith("WithOverflow"):
+                return _int_lin_rv(fn, dd[3], depth + 1)
+        return None
+    if 1 <= l <= fn.argc and not fn.defs.get(l):
+        return ({l: 1}, 0)
+    dd = fn.single_def(l)
+    if dd and dd[0] == "assign":
+        return _int_lin_rv(fn, dd[3], depth + 1)
+    return None
+
+
+def _int_lin_rv(fn, rv, depth):
+    if rv["k"] in ("use", "cast"):
+        return int_lin_form(fn, rv["op"], depth + 1)
+    if rv["k"] == "binop":
+        op = rv["op"].replace("WithOverflow", "").replace("Unchecked", "")
+        if op in ("Add", "Sub"):
+            x, y = int_lin_form(fn, rv["l"], depth + 1), int_lin_form(fn, rv["r"], depth + 1)
+            if x is None or y is None:
+                return None
+            sg = 1 if op == "Add" else -1
+            co = dict(x[0])
+            for k, v in y[0].items():
+                co[k] = co.get(k, 0) + sg * v
+            return ({k: v for k, v in co.items() if v}, x[1] + sg * y[1])
+    return None
+
+
+def zero_only_when_impossible(hp):
+    """(is a `_0 = 0.0` of hypergeometric_pmf(size, successes, draws, observed) reachable without taking the true edge of one of the three
+    impossibility tests, walking only through comparisons that could be read; explanation)"""
+    N_, K_, n_, k_ = 1, 2, 3, 4
+    impossible = [{k_: 1, n_: -1}, {k_: 1, K_: -1}, {n_: 1, k_: -1, N_: -1, K_: 1}]   # L - R of `L > R`
+    blocked = set()
+    seen_cmp = []
+    for sb, st in hp.switches():
+        s_ = an.switch_subject(hp, sb)
+        d = hp.single_def(s_["root"]) if s_["kind"] == "value" and s_["root"] is not None else None
+        if not (d and d[0] == "assign" and d[3]["k"] == "binop" and d[3]["op"] in ("Gt", "Lt", "Ge", "Le", "Eq", "Ne")):
+            # not a comparison that can be read: nothing is concluded about paths through it
+            for tgt in hp.succ.get(sb, []):
+                blocked.add((sb, tgt))
+            continue
+        l_, r_ = int_lin_form(hp, d[3]["l"]), int_lin_form(hp, d[3]["r"])
+        if l_ is None or r_ is None:
+            for tgt in hp.succ.get(sb, []):
+                blocked.add((sb, tgt))
+            continue
+        diff = {k: l_[0].get(k, 0) - r_[0].get(k, 0) for k in set(l_[0]) | set(r_[0])}
+        diff = {k: v for k, v in diff.items() if v}
+        c0 = l_[1] - r_[1]
+        neg = {k: -v for k, v in diff.items()}
+        t_true, t_false = st["otherwise"], an.edge_target(st, 0)
+        op = d[3]["op"]
+        seen_cmp.append((op, diff, c0))
+        # strict `L > R` holds on: Gt true, Lt(R, L) true, Le false, Ge(R, L) false
+        if c0 == 0:
+            if op == "Gt" and diff in impossible:
+                blocked.add((sb, t_true))
+            elif op == "Lt" and neg in impossible:
+                blocked.add((sb, t_true))
+            elif op == "Le" and diff in impossible:
+                blocked.add((sb, t_false))
+            elif op == "Ge" and neg in impossible:
+                blocked.add((sb, t_false))
+    zero_bbs = [b for b, i, p_, rv, s__ in hp.assigns() if p_[0] == 0 and not p_[1] and rv["k"] == "use" and isinstance(const_val(rv["op"]), dict) and const_val(rv["op"]).get("f") == "0.0"]
+    reach = an.reachable_with_edges_removed(hp, 0, set(), blocked)
+    hit = [b for b in zero_bbs if b in reach]
+    return bool(hit), "comparisons read: %s; 0.0 reachable otherwise at %s" % (seen_cmp, [hp.loc(b) for b in hit])
 
 
 def log_form(prog, fn, env, depth=0):
@@ -1971,7 +2080,9 @@ def check_C11(chk):
     c11c(chk)
     c11d(chk)
     c11e(chk)
-    for r, n in (("C11.a", 2), ("C11.b", 4), ("C11.c", 3), ("C11.d", 4), ("C11.e", 1)):
+    import rules_io as RIO_
+    RIO_.one_record_per_call(chk, "C11.f")
+    for r, n in (("C11.a", 2), ("C11.b", 4), ("C11.c", 3), ("C11.d", 4), ("C11.e", 1), ("C11.f", 2)):
         chk.floor(r, n)
 
 
